@@ -96,8 +96,40 @@ def to_native(a, dtype):
     return out
 
 
+class Opaque:
+    """a concrete native value the interpreter does not look into (PRNG keys)"""
+
+    __slots__ = ("value",)
+
+    def __init__(self, value):
+        self.value = value
+
+
+def _is_key_dtype(dt):
+    try:
+        return jax.dtypes.issubdtype(dt, jax.dtypes.prng_key)
+    except Exception:
+        return False
+
+
+def _native_in(a, aval):
+    if _is_key_dtype(aval.dtype):
+        flat = [v.value for v in a.reshape(-1)]
+        return jnp.stack(flat).reshape(a.shape) if a.shape else flat[0]
+    return jnp.asarray(to_native(a, aval.dtype))
+
+
+def _native_out(r, inexact):
+    if _is_key_dtype(r.dtype):
+        out = np.empty(r.shape, dtype=object)
+        for i in np.ndindex(r.shape):
+            out[i] = Opaque(r[i])
+        return out
+    return to_obj(np.asarray(r), inexact=inexact)
+
+
 def all_conc(a):
-    return all(sym.is_conc(v) for v in a.reshape(-1)) if a.size else True
+    return all(isinstance(v, Opaque) or sym.is_conc(v) for v in a.reshape(-1)) if a.size else True
 
 
 def emap(f, *arrs):
@@ -314,12 +346,12 @@ class Interp:
         raise EncodingError(f"primitive {p} with symbolic operands not supported (params {list(prm)})")
 
     def _bind_native(self, e, ins):
-        conc = [jnp.asarray(to_native(a, v.aval.dtype)) for a, v in zip(ins, e.invars)]
+        conc = [_native_in(a, v.aval) for a, v in zip(ins, e.invars)]
         with jax.ensure_compile_time_eval():
             res = e.primitive.bind(*conc, **e.params)
         res = res if e.primitive.multiple_results else [res]
         inexact = e.primitive.name in _TRANSCENDENTAL
-        return [to_obj(np.asarray(r), inexact=inexact) for r in res]
+        return [_native_out(r, inexact) for r in res]
 
     # ----- opaque / Ackermannised functions -----
     def _uf(self, e, ins):
